@@ -42,7 +42,9 @@ struct St {
 }
 
 fn subscript(t: &mut Tape, bound: i16) -> E {
-    match t.below(10) {
+    match t.below(11) {
+        // a zero with a sign is element 0 like any zero
+        10 => E::Neg(Box::new(E::Lit(t.pick(&["0!", "0#", "0", "0.0"]).to_string()))),
         0 => lit(-1),
         1 => lit(bound as i64 + 1),
         2 => E::Lit("2.5".into()),
@@ -111,7 +113,29 @@ fn remember(st: &mut St, lv: &Lval) {
 }
 
 fn op(t: &mut Tape, st: &mut St) -> Vec<Stmt> {
-    match t.weighted(&[8, 6, 2, 1, 2, 2, 1, 1]) {
+    match t.weighted(&[8, 6, 2, 1, 2, 2, 1, 1, 1]) {
+        8 => {
+            // SWAP of a variable with the element it subscripts: the two variables are the ones
+            // the statement names when it starts
+            let sfx = *t.pick(&[None, Some('!'), Some('#'), Some('%')]);
+            let i = Name { base: t.pick_str(BASES).to_string(), suffix: sfx };
+            let arr = Name { base: t.pick_str(BASES).to_string(), suffix: sfx };
+            if ty_of(&i, &st.deftypes) == Ty::Str || ty_of(&arr, &st.deftypes) != ty_of(&i, &st.deftypes) {
+                let lv = Lval::Var(i);
+                remember(st, &lv);
+                return vec![Stmt::Print(vec![PItem::Expr(lv.as_expr())])];
+            }
+            let k = t.below(4) as i64;
+            st.counter += 1;
+            let val = 4 + (st.counter % 6) as i64;
+            let el = Lval::Elem(arr.clone(), vec![E::Var(i.clone())]);
+            for j in [k, val] {
+                remember(st, &Lval::Elem(arr.clone(), vec![lit(j)]));
+            }
+            remember(st, &Lval::Var(i.clone()));
+            let (a, b) = if t.chance(1, 2) { (Lval::Var(i.clone()), el.clone()) } else { (el.clone(), Lval::Var(i.clone())) };
+            vec![Stmt::Let { lv: Lval::Var(i.clone()), e: lit(k), kw: false }, Stmt::Let { lv: el, e: lit(val), kw: false }, Stmt::Swap(a, b)]
+        }
         7 => {
             // a FOR loop leaves its counter behind as an ordinary variable of its own type, whatever
             // the types of the bounds and the step were
@@ -384,6 +408,8 @@ const CASES: &[&str] = &[
     "DIM Q(0):Q(0)=5:PRINT Q(0):PRINT Q(1)\n=>  5 \\n?SUBSCRIPT OUT OF RANGE\\n",
     "DIM Q(2,3):PRINT Q(1)\n=> ?SUBSCRIPT OUT OF RANGE\\n",
     "Q(2.9)=5:PRINT Q(2)\n=>  5 \\n",
+    "I=2:A(2)=5:SWAP I,A(I):PRINT I;A(2);A(5)\n=>  5  2  0 \\n",
+    "I=2:A(2)=5:SWAP A(I),I:PRINT I;A(2);A(5)\n=>  5  2  0 \\n",
 ];
 
 fn gen_cases(part: usize, parts: usize, _th: bool, emit: &mut dyn FnMut(&str)) {
